@@ -293,8 +293,36 @@ def bounded(rep, tier, seed):
              ('arn_split("arn:aws:sns:us-east-1:123:topic:name", "resource-type")', "topic")]
     # set helpers against Python sets over small lists with duplicates; glob against fnmatch over a pattern family with bracket classes
     import fnmatch
-    pool = ["a", "b", "c"]
+    pool = ["a", "b", ""]           # the empty string included: a falsy element is an element
     small = [list(t) for k in range(0, 4) for t in itertools.product(pool, repeat=k)]
+    for left, right in (([0, 1], [2, 0]), ([0], [0]), ([0, 0], [1]), ([False, True], [False])):
+        n += 1
+        a, b = ct.ListType([ct.IntType(x) for x in left]), ct.ListType([ct.IntType(x) for x in right])
+        try:
+            got = (bool(L.intersect(a, b)), bool(L.difference(a, b)), int(L.unique_size(a)))
+            ok = got == (bool(set(left) & set(right)), bool(set(left) - set(right)), len(set(left)))
+        except Exception as ex:
+            ok, got = False, repr(ex)[:80]
+        if not ok:
+            fails.append({"sets": [left, right], "observed (intersect, difference, unique_size)": got})
+    # arn_split returns the field as written (case preserved), for every ARN shape
+    for arn, field, want in (("arn:aws:iam::123456789012:role/OrgAdminRole", "resource-id", "role/OrgAdminRole"),
+                             ("arn:aws:rds:us-east-1:123:db:MyDBInstance", "resource-id", "MyDBInstance"), ("arn:aws:rds:us-east-1:123:db:MyDBInstance", "resource-type", "db"),
+                             ("arn:AWS:s3:::My_Bucket", "resource-id", "My_Bucket"), ("arn:aws:s3:us-east-1:123:bucket/Key", "service", "s3"),
+                             ("arn:aws:sns:us-east-1:123:MyTopic", "region", "us-east-1"), ("arn:aws:sns:us-east-1:123:MyTopic", "partition", "aws")):
+        n += 1
+        try:
+            got = L.arn_split(ct.StringType(arn), ct.StringType(field))
+            ok = str.__eq__(str(got), want)
+        except Exception as ex:
+            got, ok = repr(ex)[:80], False
+        if not ok:
+            fails.append({"arn_split": [arn, field], "observed": repr(got), "expected": want})
+    for text, want in ((" Straße ", "straße"), ("  AbC ", "abc"), ("ǅ", "ǆ"), ("İ", "i̇")):
+        n += 1
+        got = L.normalize(ct.StringType(text))
+        if not str.__eq__(str(got), want):
+            fails.append({"normalize": text, "observed": repr(got), "expected": want})
     for left in small:
         for right in small[:13]:
             n += 1
